@@ -490,6 +490,16 @@ theorem optIterFrom_eq (m : MDP) (v0 : Vec) (h : Nat) : ∀ s, s < m.S → (optI
     rw [mkVec_get _ hs]
     exact bellman_congr m ih s
 
+theorem evalIterFrom_eq (m : MDP) (p : Mat) (v0 : Vec) (h : Nat) :
+    ∀ s, s < m.S → (evalIterFrom m p v0 h).get s = evalFrom m p.get v0.get h s := by
+  induction h with
+  | zero => intro s _; rfl
+  | succ h ih =>
+    intro s hs
+    simp only [evalIterFrom, evalFrom]
+    rw [mkVec_get _ hs]
+    exact bellmanPi_congr m p.get ih s
+
 /-! ## `optH_is_optimal`: the DP values dominate every history-dependent plan and are attained by the greedy plan -/
 
 theorem sumTo_le {n : Nat} {f g : Nat → Rat} (h : ∀ i, i < n → f i ≤ g i) : sumTo n f ≤ sumTo n g := by
@@ -1044,10 +1054,10 @@ theorem piLoop_result (m : MDP) (rep : Rep) (horizon : Nat) (tol : Rat) :
       rw [hm] at hd2
       exact hd2
 
-/-- an action that receives weight from `greedyRow` passed the library's `checkEqualGeneral` test against the scanned maximum -/
-theorem greedyRow_support (A : Nat) (q : Nat → Rat) (a : Nat) (h : greedyRow A q a ≠ 0) :
+/-- an action that receives weight from the as-found `getPolicy` scan passed the library's `checkEqualGeneral` test against the scanned maximum -/
+theorem greedyRow_support (A : Nat) (q : Nat → Rat) (a : Nat) (h : greedyRowScan A q a ≠ 0) :
     checkEqualGeneral (q a) (greedyScan q (A - 1)).1 = true := by
-  unfold greedyRow at h
+  unfold greedyRowScan at h
   by_contra hc
   simp [hc] at h
 
@@ -1347,8 +1357,8 @@ theorem greedyScan_spec (q : Nat → Rat) (B : Rat) : ∀ n, (∀ i, i ≤ n →
           subst this; linarith [not_lt.mp h2, hsl B hB]
 
 /-- a positively weighted action of a greedy row is within twice the tie slack of the row maximum -/
-theorem greedyRow_near_max (A : Nat) (hA : 0 < A) (q : Nat → Rat) (B : Rat) (hb : ∀ i, i < A → |q i| ≤ B) (a : Nat)
-    (h : greedyRow A q a ≠ 0) : maxTo (A - 1) q - 2 * tieSlack B ≤ q a := by
+theorem greedyRowScan_near_max (A : Nat) (hA : 0 < A) (q : Nat → Rat) (B : Rat) (hb : ∀ i, i < A → |q i| ≤ B) (a : Nat)
+    (h : greedyRowScan A q a ≠ 0) : maxTo (A - 1) q - 2 * tieSlack B ≤ q a := by
   have hb' : ∀ i, i ≤ A - 1 → |q i| ≤ B := fun i hi => hb i (by omega)
   obtain ⟨⟨j, hj, hjm⟩, _, _, hle⟩ := greedyScan_spec q B (A - 1) hb'
   have hsup := greedyRow_support A q a h
@@ -1371,17 +1381,435 @@ theorem greedyScan_count (q : Nat → Rat) : ∀ n, 1 ≤ (greedyScan q n).2 ∧
       · simp
       · omega
 
-/-- entries of a greedy row are 0 or 1/c for one count c ∈ [1, A] -/
-theorem greedyRow_form (A : Nat) (hA : 0 < A) (q : Nat → Rat) :
-    ∃ c : Nat, 1 ≤ c ∧ c ≤ A ∧ ∀ a, greedyRow A q a = 0 ∨ greedyRow A q a = 1 / (c : Rat) := by
+/-- entries of an as-found greedy row are 0 or 1/c for one count c ∈ [1, A] -/
+theorem greedyRowScan_form (A : Nat) (hA : 0 < A) (q : Nat → Rat) :
+    ∃ c : Nat, 1 ≤ c ∧ c ≤ A ∧ ∀ a, greedyRowScan A q a = 0 ∨ greedyRowScan A q a = 1 / (c : Rat) := by
   obtain ⟨c1, c2⟩ := greedyScan_count q (A - 1)
   refine ⟨(greedyScan q (A - 1)).2, c1, by omega, ?_⟩
   intro a
-  unfold greedyRow
+  unfold greedyRowScan
   simp only
   split
   · exact Or.inr rfl
   · exact Or.inl rfl
+
+/-! ### the repaired `getPolicy` (true maximum first): every row is a distribution, for every Q -/
+
+theorem checkEqualGeneral_self (x : Rat) : checkEqualGeneral x x = true := by
+  have h0 : absR (x - x) ≤ AITB.Gen.equalToleranceSmall := by
+    rw [sub_self, absR_eq, abs_zero]; exact le_of_lt tolSmall_pos
+  unfold checkEqualGeneral checkEqualSmall
+  rw [decide_eq_true h0]; rfl
+
+theorem countTo_le (p : Nat → Bool) : ∀ n, countTo n p ≤ n := by
+  intro n
+  induction n with
+  | zero => simp [countTo]
+  | succ n ih => simp only [countTo]; split <;> omega
+
+theorem countTo_pos (p : Nat → Bool) : ∀ n i, i < n → p i = true → 1 ≤ countTo n p := by
+  intro n
+  induction n with
+  | zero => intro i hi; omega
+  | succ n ih =>
+    intro i hi hp
+    simp only [countTo]
+    by_cases h : i = n
+    · subst h; simp [hp]
+    · have := ih i (by omega) hp; omega
+
+/-- Σ_{i<n} (if p i then c else 0) = #{i<n | p i} · c -/
+theorem sumTo_indicator_count (p : Nat → Bool) (c : Rat) : ∀ n, sumTo n (fun i => if p i then c else 0) = (countTo n p : Rat) * c := by
+  intro n
+  induction n with
+  | zero => simp [sumTo, countTo]
+  | succ n ih =>
+    simp only [sumTo, countTo, ih]
+    by_cases h : p n
+    · simp [h]; ring
+    · simp [h]
+
+/-- the count of the repaired row is between 1 and A: the maximum is an entry and equals itself -/
+theorem greedyRowMax_count (A : Nat) (hA : 0 < A) (q : Nat → Rat) :
+    1 ≤ countTo A (fun i => checkEqualGeneral (q i) (maxTo (A - 1) q)) ∧ countTo A (fun i => checkEqualGeneral (q i) (maxTo (A - 1) q)) ≤ A := by
+  refine ⟨?_, countTo_le _ A⟩
+  obtain ⟨i, hi, hm⟩ := maxTo_attained (A - 1) q
+  exact countTo_pos _ A i (by omega) (by simp only [hm]; exact checkEqualGeneral_self (q i))
+
+/-- **greedyRowMax_sum_one.**  The repaired `getPolicy` row sums to exactly one for every Q row of every size A ≥ 1 (no separation
+    hypothesis on the entries: chains a≈b≈c with a≉c included). -/
+theorem greedyRowMax_sum_one (A : Nat) (hA : 0 < A) (q : Nat → Rat) : sumTo A (greedyRowMax A q) = 1 := by
+  obtain ⟨c1, _⟩ := greedyRowMax_count A hA q
+  have hc : ((countTo A (fun i => checkEqualGeneral (q i) (maxTo (A - 1) q)) : Nat) : Rat) ≠ 0 := by
+    have : (0 : Rat) < ((countTo A (fun i => checkEqualGeneral (q i) (maxTo (A - 1) q)) : Nat) : Rat) := by exact_mod_cast c1
+    exact ne_of_gt this
+  have e : greedyRowMax A q = fun a => if (fun i => checkEqualGeneral (q i) (maxTo (A - 1) q)) a
+      then 1 / ((countTo A (fun i => checkEqualGeneral (q i) (maxTo (A - 1) q)) : Nat) : Rat) else 0 := by
+    funext a; simp only [greedyRowMax]
+  rw [e, sumTo_indicator_count]
+  field_simp
+
+theorem greedyRowMax_nonneg (A : Nat) (hA : 0 < A) (q : Nat → Rat) (a : Nat) : 0 ≤ greedyRowMax A q a := by
+  obtain ⟨c1, _⟩ := greedyRowMax_count A hA q
+  unfold greedyRowMax
+  simp only
+  split
+  · have : (0 : Rat) < ((countTo A (fun i => checkEqualGeneral (q i) (maxTo (A - 1) q)) : Nat) : Rat) := by exact_mod_cast c1
+    exact le_of_lt (one_div_pos.mpr this)
+  · exact le_refl 0
+
+theorem greedyRowMax_form (A : Nat) (hA : 0 < A) (q : Nat → Rat) :
+    ∃ c : Nat, 1 ≤ c ∧ c ≤ A ∧ ∀ a, greedyRowMax A q a = 0 ∨ greedyRowMax A q a = 1 / (c : Rat) := by
+  obtain ⟨c1, c2⟩ := greedyRowMax_count A hA q
+  refine ⟨_, c1, c2, ?_⟩
+  intro a
+  unfold greedyRowMax
+  simp only
+  split
+  · exact Or.inr rfl
+  · exact Or.inl rfl
+
+/-- a weighted action of the repaired row is within ONE tie slack of the true row maximum -/
+theorem greedyRowMax_near_max (A : Nat) (hA : 0 < A) (q : Nat → Rat) (B : Rat) (hb : ∀ i, i < A → |q i| ≤ B) (a : Nat)
+    (h : greedyRowMax A q a ≠ 0) : maxTo (A - 1) q - tieSlack B ≤ q a := by
+  have hsup : checkEqualGeneral (q a) (maxTo (A - 1) q) = true := by
+    unfold greedyRowMax at h
+    by_contra hc
+    simp [hc] at h
+  obtain ⟨i, hi, hm⟩ := maxTo_attained (A - 1) q
+  have hmb : |maxTo (A - 1) q| ≤ B := by rw [hm]; exact hb i (by omega)
+  have h1 := checkEqualGeneral_bound _ _ B hmb hsup
+  rw [abs_le] at h1
+  linarith [h1.1]
+
+theorem countTo_mono (p : Nat → Bool) (n : Nat) : countTo n p ≤ countTo (n+1) p := by
+  simp only [countTo]; omega
+
+/-- the as-found scan never counts more ties than there are entries equal to its final maximum -/
+theorem greedyScan_count_le (q : Nat → Rat) : ∀ n,
+    (greedyScan q n).2 ≤ countTo (n+1) (fun i => checkEqualGeneral (q i) (greedyScan q n).1) := by
+  intro n
+  induction n with
+  | zero =>
+    simp only [greedyScan, countTo, checkEqualGeneral_self]
+    simp
+  | succ n ih =>
+    simp only [greedyScan]
+    split
+    · rename_i h
+      -- tie: the maximum is unchanged, entry n+1 is one more tie
+      simp only [countTo] at ih ⊢
+      simp only [h, if_true]
+      omega
+    · split
+      · -- new strict maximum: count 1, and the new maximum equals itself
+        simp only [countTo, checkEqualGeneral_self]
+        simp
+      · rename_i h _
+        simp only [countTo] at ih ⊢
+        simp only [h]
+        simp only [Bool.false_eq_true, if_false, Nat.add_zero]
+        exact ih
+
+/-- **greedyRowScan_sum_ge_one.**  The as-found `getPolicy` row can only sum to MORE than one (it equals #{a | q a ≈ max}/count with
+    count ≤ that number): a row summing to less than one is never the known tie-chain defect. -/
+theorem greedyRowScan_sum_ge_one (A : Nat) (hA : 0 < A) (q : Nat → Rat) : 1 ≤ sumTo A (greedyRowScan A q) := by
+  obtain ⟨c1, _⟩ := greedyScan_count q (A - 1)
+  have hle := greedyScan_count_le q (A - 1)
+  have hA1 : A - 1 + 1 = A := by omega
+  rw [hA1] at hle
+  have e : greedyRowScan A q = fun a => if (fun i => checkEqualGeneral (q i) (greedyScan q (A - 1)).1) a
+      then 1 / (((greedyScan q (A - 1)).2 : Nat) : Rat) else 0 := by
+    funext a; simp only [greedyRowScan]
+  rw [e, sumTo_indicator_count]
+  have hc : (0 : Rat) < (((greedyScan q (A - 1)).2 : Nat) : Rat) := by exact_mod_cast c1
+  rw [mul_one_div, le_div_iff₀ hc, one_mul]
+  exact_mod_cast hle
+
+/-! ### when the as-found scan is right: separated ties -/
+
+theorem absR_sub_comm (a b : Rat) : absR (a - b) = absR (b - a) := by
+  rw [absR_eq, absR_eq, abs_sub_comm]
+
+theorem minR_comm (a b : Rat) : minR a b = minR b a := by
+  unfold minR
+  by_cases h1 : b < a
+  · have : ¬ a < b := not_lt.mpr (le_of_lt h1)
+    simp [h1, this]
+  · by_cases h2 : a < b
+    · simp [h1, h2]
+    · have : a = b := le_antisymm (not_lt.mp h1) (not_lt.mp h2)
+      simp [this]
+
+theorem checkEqualGeneral_symm (a b : Rat) : checkEqualGeneral a b = checkEqualGeneral b a := by
+  unfold checkEqualGeneral checkEqualSmall
+  rw [absR_sub_comm a b, minR_comm (absR a) (absR b)]
+
+theorem countTo_eq_zero (p : Nat → Bool) : ∀ n, (∀ i, i < n → p i = false) → countTo n p = 0 := by
+  intro n
+  induction n with
+  | zero => intro _; rfl
+  | succ n ih =>
+    intro h
+    simp only [countTo, ih (fun i hi => h i (by omega)), h n (by omega)]
+    simp
+
+/-- ties among the first N+1 entries behave like an equivalence compatible with the order: tied entries are indistinguishable by the
+    tie test, and an entry between two tied entries is tied to both.  (Checkable on a concrete row; false exactly on the chains.) -/
+structure TiesSeparated (q : Nat → Rat) (N : Nat) : Prop where
+  equiv : ∀ i j k, i ≤ N → j ≤ N → k ≤ N → checkEqualGeneral (q i) (q j) = true →
+    checkEqualGeneral (q k) (q i) = checkEqualGeneral (q k) (q j)
+  between : ∀ i j k, i ≤ N → j ≤ N → k ≤ N → q i ≤ q j → q j ≤ q k → checkEqualGeneral (q i) (q k) = true →
+    checkEqualGeneral (q i) (q j) = true ∧ checkEqualGeneral (q j) (q k) = true
+
+/-- on separated rows the as-found scan counts exactly the entries tied to its final maximum -/
+theorem greedyScan_count_eq (q : Nat → Rat) (N : Nat) (H : TiesSeparated q N) : ∀ n, n ≤ N →
+    (∃ k, k ≤ n ∧ (greedyScan q n).1 = q k) ∧
+    (greedyScan q n).2 = countTo (n+1) (fun i => checkEqualGeneral (q i) (greedyScan q n).1) ∧
+    ∀ i, i ≤ n → q i ≤ (greedyScan q n).1 ∨ checkEqualGeneral (q i) (greedyScan q n).1 = true := by
+  intro n
+  induction n with
+  | zero =>
+    intro _
+    refine ⟨⟨0, le_refl 0, rfl⟩, ?_, ?_⟩
+    · simp only [greedyScan, countTo, checkEqualGeneral_self]; simp
+    · intro i hi
+      have : i = 0 := by omega
+      subst this
+      exact Or.inl (le_refl _)
+  | succ n ih =>
+    intro hn
+    obtain ⟨⟨k0, hk0, hmx⟩, hcnt, hall⟩ := ih (by omega)
+    simp only [greedyScan]
+    split
+    · rename_i htie
+      refine ⟨⟨k0, by omega, hmx⟩, ?_, ?_⟩
+      · simp only [countTo] at hcnt ⊢
+        simp only [htie, if_true]
+        omega
+      · intro i hi
+        by_cases h : i = n + 1
+        · subst h; exact Or.inr htie
+        · exact hall i (by omega)
+    · rename_i hnt
+      split
+      · rename_i hgt
+        have hnt' : checkEqualGeneral (q (n+1)) (q k0) = false := by
+          rw [← hmx]; simpa using hnt
+        have hgt' : q k0 < q (n+1) := by rw [← hmx]; exact hgt
+        have hnone : ∀ i, i < n + 1 → checkEqualGeneral (q i) (q (n+1)) = false := by
+          intro i hi
+          by_contra hc
+          have hc' : checkEqualGeneral (q i) (q (n+1)) = true := by simpa using hc
+          rcases hall i (by omega) with hle | ht
+          · rw [hmx] at hle
+            have := (H.between i k0 (n+1) (by omega) (by omega) hn hle (le_of_lt hgt') hc').2
+            rw [checkEqualGeneral_symm] at this
+            rw [this] at hnt'; exact absurd hnt' (by simp)
+          · rw [hmx] at ht
+            have e := H.equiv i k0 (n+1) (by omega) (by omega) hn ht
+            rw [checkEqualGeneral_symm (q (n+1)) (q i), hc', hnt'] at e
+            exact absurd e (by simp)
+        refine ⟨⟨n+1, le_refl _, rfl⟩, ?_, ?_⟩
+        · show 1 = countTo (n + 1 + 1) (fun i => checkEqualGeneral (q i) (q (n+1)))
+          simp only [countTo]
+          have h0 := countTo_eq_zero (fun i => checkEqualGeneral (q i) (q (n+1))) (n+1) hnone
+          simp only [countTo] at h0
+          simp only [checkEqualGeneral_self, if_true]
+          omega
+        · intro i hi
+          show q i ≤ q (n+1) ∨ checkEqualGeneral (q i) (q (n+1)) = true
+          by_cases h : i = n + 1
+          · subst h; exact Or.inl (le_refl _)
+          · rcases hall i (by omega) with hle | ht
+            · rw [hmx] at hle; exact Or.inl (le_trans hle (le_of_lt hgt'))
+            · by_cases hle2 : q i ≤ q (n+1)
+              · exact Or.inl hle2
+              · exfalso
+                rw [hmx, checkEqualGeneral_symm] at ht
+                have := (H.between k0 (n+1) i (by omega) hn (by omega) (le_of_lt hgt') (le_of_lt (not_le.mp hle2)) ht).1
+                rw [checkEqualGeneral_symm] at this
+                rw [this] at hnt'; exact absurd hnt' (by simp)
+      · rename_i hng
+        refine ⟨⟨k0, by omega, hmx⟩, ?_, ?_⟩
+        · simp only [countTo] at hcnt ⊢
+          have : checkEqualGeneral (q (n+1)) (greedyScan q n).1 = false := by simpa using hnt
+          simp only [this]
+          simp only [Bool.false_eq_true, if_false, Nat.add_zero]
+          exact hcnt
+        · intro i hi
+          by_cases h : i = n + 1
+          · subst h; exact Or.inl (not_lt.mp hng)
+          · exact hall i (by omega)
+
+/-- **greedyRowScan_sum_one_of_separated.**  The as-found `getPolicy` row IS a distribution whenever the ties of the row are separated
+    (an equivalence compatible with the order) — the defect C01-3 needs a genuine chain. -/
+theorem greedyRowScan_sum_one_of_separated (A : Nat) (hA : 0 < A) (q : Nat → Rat) (H : TiesSeparated q (A - 1)) :
+    sumTo A (greedyRowScan A q) = 1 := by
+  obtain ⟨_, hcnt, _⟩ := greedyScan_count_eq q (A - 1) H (A - 1) (le_refl _)
+  obtain ⟨c1, _⟩ := greedyScan_count q (A - 1)
+  have hA1 : A - 1 + 1 = A := by omega
+  rw [hA1] at hcnt
+  have e : greedyRowScan A q = fun a => if (fun i => checkEqualGeneral (q i) (greedyScan q (A - 1)).1) a
+      then 1 / (((greedyScan q (A - 1)).2 : Nat) : Rat) else 0 := by
+    funext a; simp only [greedyRowScan]
+  rw [e, sumTo_indicator_count, ← hcnt]
+  have hc : ((((greedyScan q (A - 1)).2 : Nat) : Rat)) ≠ 0 := by
+    have : (0 : Rat) < (((greedyScan q (A - 1)).2 : Nat) : Rat) := by exact_mod_cast c1
+    exact ne_of_gt this
+  field_simp
+
+/-- the hypothesis is satisfiable by a non-trivial row: two exact ties and a clearly smaller entry (test on literals) -/
+example : TiesSeparated (fun a => if a = 1 then 0 else 5) 2 := by
+  constructor
+  · intro i j k hi hj hk
+    have h1 : i = 0 ∨ i = 1 ∨ i = 2 := by omega
+    have h2 : j = 0 ∨ j = 1 ∨ j = 2 := by omega
+    have h3 : k = 0 ∨ k = 1 ∨ k = 2 := by omega
+    rcases h1 with rfl | rfl | rfl <;> rcases h2 with rfl | rfl | rfl <;> rcases h3 with rfl | rfl | rfl <;>
+      norm_num [checkEqualGeneral, checkEqualSmall, absR, minR, AITB.Gen.equalToleranceSmall, AITB.Gen.equalToleranceGeneral]
+  · intro i j k hi hj hk
+    have h1 : i = 0 ∨ i = 1 ∨ i = 2 := by omega
+    have h2 : j = 0 ∨ j = 1 ∨ j = 2 := by omega
+    have h3 : k = 0 ∨ k = 1 ∨ k = 2 := by omega
+    rcases h1 with rfl | rfl | rfl <;> rcases h2 with rfl | rfl | rfl <;> rcases h3 with rfl | rfl | rfl <;>
+      norm_num [checkEqualGeneral, checkEqualSmall, absR, minR, AITB.Gen.equalToleranceSmall, AITB.Gen.equalToleranceGeneral]
+
+theorem minR_eq_min (a b : Rat) : minR a b = min a b := by
+  unfold minR
+  by_cases h : b < a
+  · simp [h, min_eq_right (le_of_lt h)]
+  · simp [h, min_eq_left (not_lt.mp h)]
+
+theorem checkEqualGeneral_iff (a b : Rat) : checkEqualGeneral a b = true ↔
+    (|a - b| ≤ AITB.Gen.equalToleranceSmall ∨ |a - b| ≤ min |a| |b| * AITB.Gen.equalToleranceGeneral) := by
+  unfold checkEqualGeneral checkEqualSmall
+  simp only [Bool.or_eq_true, decide_eq_true_eq, absR_eq, minR_eq_min]
+
+theorem tolGeneral_le_one : AITB.Gen.equalToleranceGeneral ≤ 1 := by norm_num [AITB.Gen.equalToleranceGeneral]
+
+/-- **checkEqualGeneral_between.**  The library's tie test is convex: an entry between two tied entries is tied to both (all rationals). -/
+theorem checkEqualGeneral_between (a b c : Rat) (hab : a ≤ b) (hbc : b ≤ c) (h : checkEqualGeneral a c = true) :
+    checkEqualGeneral a b = true ∧ checkEqualGeneral b c = true := by
+  rw [checkEqualGeneral_iff] at h ⊢
+  rw [checkEqualGeneral_iff]
+  have g0 := tolGeneral_nonneg
+  have g1 := tolGeneral_le_one
+  have s0 := tolSmall_pos
+  have e1 : |a - b| = b - a := by rw [abs_sub_comm]; exact abs_of_nonneg (by linarith)
+  have e2 : |b - c| = c - b := by rw [abs_sub_comm]; exact abs_of_nonneg (by linarith)
+  have e3 : |a - c| = c - a := by rw [abs_sub_comm]; exact abs_of_nonneg (by linarith)
+  rw [e1, e2]; rw [e3] at h
+  rcases h with h | h
+  · exact ⟨Or.inl (by linarith), Or.inl (by linarith)⟩
+  · rcases le_total 0 a with ha | ha
+    · -- 0 ≤ a ≤ b ≤ c
+      have hb : 0 ≤ b := le_trans ha hab
+      have hc : 0 ≤ c := le_trans hb hbc
+      rw [abs_of_nonneg ha, abs_of_nonneg hc, min_eq_left (le_trans hab hbc)] at h
+      rw [abs_of_nonneg ha, abs_of_nonneg hb, abs_of_nonneg hc, min_eq_left hab, min_eq_left hbc]
+      refine ⟨Or.inr (by linarith), Or.inr ?_⟩
+      have : a * AITB.Gen.equalToleranceGeneral ≤ b * AITB.Gen.equalToleranceGeneral := mul_le_mul_of_nonneg_right hab g0
+      linarith
+    · rcases le_total c 0 with hc | hc
+      · -- a ≤ b ≤ c ≤ 0
+        have hb : b ≤ 0 := le_trans hbc hc
+        rw [abs_of_nonpos ha, abs_of_nonpos hc, min_eq_right (by linarith)] at h
+        rw [abs_of_nonpos ha, abs_of_nonpos hb, abs_of_nonpos hc, min_eq_right (by linarith), min_eq_right (by linarith)]
+        refine ⟨Or.inr ?_, Or.inr (by linarith)⟩
+        have : (-c) * AITB.Gen.equalToleranceGeneral ≤ (-b) * AITB.Gen.equalToleranceGeneral :=
+          mul_le_mul_of_nonneg_right (by linarith) g0
+        linarith
+      · -- a ≤ 0 ≤ c: the relative test can only pass when both are 0
+        rw [abs_of_nonpos ha, abs_of_nonneg hc] at h
+        have hm : min (-a) c * AITB.Gen.equalToleranceGeneral ≤ min (-a) c := by
+          have hmn : 0 ≤ min (-a) c := le_min (by linarith) hc
+          nlinarith
+        have h1 : min (-a) c ≤ -a := min_le_left _ _
+        have h2 : min (-a) c ≤ c := min_le_right _ _
+        have hca : c - a ≤ 0 := by
+          rcases le_total (-a) c with h3 | h3
+          · rw [min_eq_left h3] at hm h; linarith
+          · rw [min_eq_right h3] at hm h; linarith
+        exact ⟨Or.inl (by linarith), Or.inl (by linarith)⟩
+
+/-- transitivity of the tie test among the first N+1 entries -/
+def TiesTransitive (q : Nat → Rat) (N : Nat) : Prop :=
+  ∀ i j k, i ≤ N → j ≤ N → k ≤ N → checkEqualGeneral (q i) (q j) = true → checkEqualGeneral (q j) (q k) = true →
+    checkEqualGeneral (q i) (q k) = true
+
+theorem tiesSeparated_of_transitive (q : Nat → Rat) (N : Nat) (H : TiesTransitive q N) : TiesSeparated q N := by
+  constructor
+  · intro i j k hi hj hk hij
+    cases h1 : checkEqualGeneral (q k) (q i) <;> cases h2 : checkEqualGeneral (q k) (q j)
+    · rfl
+    · exfalso
+      have := H k j i hk hj hi h2 (by rw [checkEqualGeneral_symm]; exact hij)
+      rw [h1] at this; exact absurd this (by simp)
+    · exfalso
+      have := H k i j hk hi hj h1 hij
+      rw [h2] at this; exact absurd this (by simp)
+    · rfl
+  · intro i j k _ _ _ hij hjk h
+    exact checkEqualGeneral_between (q i) (q j) (q k) hij hjk h
+
+/-- **greedyRowScan_sum_one_iff_chainfree (⇐).**  The as-found `getPolicy` row is a distribution on every row whose ties are transitive —
+    the only rows on which C01-3 shows are genuine chains a≈b, b≈c, a≉c. -/
+theorem greedyRowScan_sum_one_of_transitive (A : Nat) (hA : 0 < A) (q : Nat → Rat) (H : TiesTransitive q (A - 1)) :
+    sumTo A (greedyRowScan A q) = 1 :=
+  greedyRowScan_sum_one_of_separated A hA q (tiesSeparated_of_transitive q (A - 1) H)
+
+/-- whichever shape the source has: entries of a greedy row are 0 or 1/c for one count c ∈ [1, A] -/
+theorem greedyRow_form (A : Nat) (hA : 0 < A) (q : Nat → Rat) :
+    ∃ c : Nat, 1 ≤ c ∧ c ≤ A ∧ ∀ a, greedyRow A q a = 0 ∨ greedyRow A q a = 1 / (c : Rat) := by
+  unfold greedyRow
+  split
+  · exact greedyRowMax_form A hA q
+  · exact greedyRowScan_form A hA q
+
+/-- whichever shape the source has: a positively weighted action is within twice the tie slack of the row maximum -/
+theorem greedyRow_near_max (A : Nat) (hA : 0 < A) (q : Nat → Rat) (B : Rat) (hb : ∀ i, i < A → |q i| ≤ B) (a : Nat)
+    (h : greedyRow A q a ≠ 0) : maxTo (A - 1) q - 2 * tieSlack B ≤ q a := by
+  unfold greedyRow at h
+  split at h
+  · have h1 := greedyRowMax_near_max A hA q B hb a h
+    obtain ⟨i, hi, hm⟩ := maxTo_attained (A - 1) q
+    have hB : 0 ≤ B := le_trans (abs_nonneg _) (hb i (by omega))
+    have : 0 ≤ tieSlack B := by
+      unfold tieSlack
+      have h2 := mul_nonneg tolGeneral_nonneg hB
+      linarith [tolSmall_pos]
+    linarith
+  · exact greedyRowScan_near_max A hA q B hb a h
+
+/-- **greedyRow_valid_of_trueMax.**  Once the source has the repaired shape (`Gen.C01.greedyTrueMaxFirst`, fixes/C01-3) the greedy matrix of
+    EVERY Q-function is a stochastic matrix — the hypothesis `hvalid` of `policyIteration_chain` is discharged for all inputs. -/
+theorem greedyRow_valid_of_trueMax (hfix : AITB.Gen.C01.greedyTrueMaxFirst = true) (A : Nat) (hA : 0 < A) (q : Nat → Rat) :
+    (∀ a, 0 ≤ greedyRow A q a) ∧ sumTo A (greedyRow A q) = 1 := by
+  have e : greedyRow A q = greedyRowMax A q := by funext a; simp [greedyRow, hfix]
+  rw [e]
+  exact ⟨greedyRowMax_nonneg A hA q, greedyRowMax_sum_one A hA q⟩
+
+/-- the as-found scan: a chain a ≈ b ≈ c with a ≉ c, ascending by index, gets weight 1 on b and on c — the row sums to 2.
+    (test on literals; this is harness case 7 and the Q rows PolicyIteration meets in harness case 3) -/
+def chainRow : Nat → Rat := fun a => if a = 0 then 0 else if a = 1 then 9 / 10000000 else 18 / 10000000
+
+theorem greedyRowScan_chain_counterexample : sumTo 3 (greedyRowScan 3 chainRow) = 2 := by
+  norm_num [sumTo, greedyRowScan, greedyScan, chainRow, checkEqualGeneral, checkEqualSmall, absR, minR,
+    AITB.Gen.equalToleranceSmall, AITB.Gen.equalToleranceGeneral]
+
+/-- the same row under the repaired shape -/
+example : sumTo 3 (greedyRowMax 3 chainRow) = 1 := greedyRowMax_sum_one 3 (by norm_num) chainRow
+
+/-- the chain row of the counterexample is, as it must be, not transitive (test on literals) -/
+example : ¬ TiesTransitive chainRow 2 := by
+  intro H
+  have := H 0 1 2 (by omega) (by omega) (by omega)
+    (by norm_num [chainRow, checkEqualGeneral, checkEqualSmall, absR, minR, AITB.Gen.equalToleranceSmall, AITB.Gen.equalToleranceGeneral])
+    (by norm_num [chainRow, checkEqualGeneral, checkEqualSmall, absR, minR, AITB.Gen.equalToleranceSmall, AITB.Gen.equalToleranceGeneral])
+  revert this
+  norm_num [chainRow, checkEqualGeneral, checkEqualSmall, absR, minR, AITB.Gen.equalToleranceSmall, AITB.Gen.equalToleranceGeneral]
+
 
 /-! ### discreteness: two greedy rows that agree entrywise within equalToleranceSmall are equal -/
 
@@ -1628,6 +2056,103 @@ theorem policyIteration_chain (m : MDP) (rep : Rep) (hrep : RepOK m rep) (hA : 0
     rw [bellman_congr m hVeq s, hVeq s hs]
     exact hb
 
+
+/-- **policyIteration_chain_fixed.**  With the repaired `getPolicy` in the source the coherence hypothesis disappears: for EVERY MDP,
+    horizon and tolerance, if the modelled loop terminates then `V = max_a Q` of the returned Q satisfies the optimality equation within
+    γ(ε + 2·tieSlack B) (B any bound on |Q|), ε the last sweep's variation. -/
+theorem policyIteration_chain_fixed (hfix : AITB.Gen.C01.greedyTrueMaxFirst = true)
+    (m : MDP) (rep : Rep) (hrep : RepOK m rep) (hA : 0 < m.A) (hγ0 : 0 ≤ m.γ) (hT : ValidT m)
+    (h : Nat) (hh : 0 < h) (tol : Rat) (htol : useTolerance tol = false ∨ 0 < tol)
+    (hA2 : (m.A : Rat) * m.A * AITB.Gen.equalToleranceSmall < 1)
+    (fuel : Nat) (st : PIState) (hres : policyIteration m rep h tol fuel = some st)
+    (B : Rat) (hB : ∀ s a, s < m.S → a < m.A → |st.qfun.get s a| ≤ B) :
+    ∃ ε : Rat, 0 ≤ ε ∧
+      ∀ s, s < m.S → |bellman m (piValues m st.qfun) s - piValues m st.qfun s| ≤ m.γ * (ε + 2 * tieSlack B) := by
+  have hvalid : ValidPi m (greedyPolicy m.S m.A st.qfun).get := by
+    refine ⟨?_, ?_⟩
+    · intro s a
+      by_cases hs : s < m.S
+      · by_cases ha : a < m.A
+        · unfold greedyPolicy
+          rw [mkMat_get _ hs ha]
+          exact (greedyRow_valid_of_trueMax hfix m.A hA (st.qfun.get s)).1 a
+        · simp [greedyPolicy, mkMat, Mat.get, Array.getD, hs, ha]
+      · simp [greedyPolicy, mkMat, Mat.get, Array.getD, hs]
+    · intro s hs
+      rw [← (greedyRow_valid_of_trueMax hfix m.A hA (st.qfun.get s)).2]
+      apply sumTo_congr
+      intro a ha
+      unfold greedyPolicy
+      rw [mkMat_get _ hs ha]
+  obtain ⟨prev, _, ε, hε, _, hall⟩ := policyIteration_chain m rep hrep hA hγ0 hT h hh tol htol hA2 fuel st hres hvalid
+  refine ⟨ε, hε, ?_⟩
+  apply hall (2 * tieSlack B)
+  intro s a hs ha hne
+  unfold greedyPolicy at hne
+  rw [mkMat_get _ hs ha] at hne
+  unfold piValues
+  exact greedyRow_near_max m.A hA (st.qfun.get s) B (fun i hi => hB s i hs hi) a hne
+
+theorem greedyRowScan_nonneg (A : Nat) (hA : 0 < A) (q : Nat → Rat) (a : Nat) : 0 ≤ greedyRowScan A q a := by
+  obtain ⟨c, hc1, _, hx⟩ := greedyRowScan_form A hA q
+  rcases hx a with h0 | h1
+  · rw [h0]
+  · rw [h1]
+    have : (0 : Rat) < c := by exact_mod_cast hc1
+    exact le_of_lt (one_div_pos.mpr this)
+
+/-- the greedy matrix is a stochastic matrix if the source has the repaired shape, or (as found) if every row's ties are transitive -/
+theorem greedyPolicy_valid (m : MDP) (hA : 0 < m.A) (q : Mat)
+    (h : AITB.Gen.C01.greedyTrueMaxFirst = true ∨ ∀ s, s < m.S → TiesTransitive (q.get s) (m.A - 1)) :
+    ValidPi m (greedyPolicy m.S m.A q).get := by
+  have key : ∀ s, s < m.S → (∀ a, 0 ≤ greedyRow m.A (q.get s) a) ∧ sumTo m.A (greedyRow m.A (q.get s)) = 1 := by
+    intro s hs
+    by_cases hf : AITB.Gen.C01.greedyTrueMaxFirst = true
+    · exact greedyRow_valid_of_trueMax hf m.A hA (q.get s)
+    · have hH : ∀ s, s < m.S → TiesTransitive (q.get s) (m.A - 1) := by
+        rcases h with h | h
+        · exact absurd h hf
+        · exact h
+      have e : greedyRow m.A (q.get s) = greedyRowScan m.A (q.get s) := by
+        funext a; simp [greedyRow, hf]
+      rw [e]
+      exact ⟨greedyRowScan_nonneg m.A hA (q.get s), greedyRowScan_sum_one_of_transitive m.A hA (q.get s) (hH s hs)⟩
+  refine ⟨?_, ?_⟩
+  · intro s a
+    by_cases hs : s < m.S
+    · by_cases ha : a < m.A
+      · unfold greedyPolicy
+        rw [mkMat_get _ hs ha]
+        exact (key s hs).1 a
+      · simp [greedyPolicy, mkMat, Mat.get, Array.getD, hs, ha]
+    · simp [greedyPolicy, mkMat, Mat.get, Array.getD, hs]
+  · intro s hs
+    rw [← (key s hs).2]
+    apply sumTo_congr
+    intro a ha
+    unfold greedyPolicy
+    rw [mkMat_get _ hs ha]
+
+/-- **policyIteration_chain_full.**  For every MDP, horizon and tolerance: if the modelled loop terminates, then `V = max_a Q` of the returned Q
+    satisfies the optimality equation within γ(ε + 2·tieSlack B) — unconditionally once the source has the repaired `getPolicy`, and for the
+    source as found whenever the returned Q has no tie chain (the `_partial` form; `greedyRowScan_chain_counterexample` shows the hypothesis is needed). -/
+theorem policyIteration_chain_full (m : MDP) (rep : Rep) (hrep : RepOK m rep) (hA : 0 < m.A) (hγ0 : 0 ≤ m.γ) (hT : ValidT m)
+    (h : Nat) (hh : 0 < h) (tol : Rat) (htol : useTolerance tol = false ∨ 0 < tol)
+    (hA2 : (m.A : Rat) * m.A * AITB.Gen.equalToleranceSmall < 1)
+    (fuel : Nat) (st : PIState) (hres : policyIteration m rep h tol fuel = some st)
+    (hties : AITB.Gen.C01.greedyTrueMaxFirst = true ∨ ∀ s, s < m.S → TiesTransitive (st.qfun.get s) (m.A - 1))
+    (B : Rat) (hB : ∀ s a, s < m.S → a < m.A → |st.qfun.get s a| ≤ B) :
+    ∃ ε : Rat, 0 ≤ ε ∧
+      ∀ s, s < m.S → |bellman m (piValues m st.qfun) s - piValues m st.qfun s| ≤ m.γ * (ε + 2 * tieSlack B) := by
+  have hvalid := greedyPolicy_valid m hA st.qfun hties
+  obtain ⟨prev, _, ε, hε, _, hall⟩ := policyIteration_chain m rep hrep hA hγ0 hT h hh tol htol hA2 fuel st hres hvalid
+  refine ⟨ε, hε, ?_⟩
+  apply hall (2 * tieSlack B)
+  intro s a hs ha hne
+  unfold greedyPolicy at hne
+  rw [mkMat_get _ hs ha] at hne
+  unfold piValues
+  exact greedyRow_near_max m.A hA (st.qfun.get s) B (fun i hi => hB s i hs hi) a hne
 
 /-! ### planners agree, without assuming that a fixed point exists -/
 
@@ -2046,11 +2571,296 @@ theorem vi_stops_by_tolerance (m : MDP) (rep : Rep) (hrep : RepOK m rep) (hA : 0
 theorem sites_match_model :
     AITB.Gen.C01.viLoopOrder = ["init2tol", "useTolSmall", "while", "inc", "save", "discount", "computeQ", "bellman", "absmax", "ret"] ∧
     AITB.Gen.C01.peLoopOrder = ["init2tol", "useTolSmall", "while", "save", "discount", "computeQ", "dot", "absmax"] ∧
-    AITB.Gen.C01.lpSites = ["objUniform", "minimise", "rowEigen", "rowGeneric", "plusOne", "GE", "assembleQ"] ∧
+    AITB.Gen.C01.lpSites = ["lpOfS", "resizeSA", "objUniform", "minimise", "loopS", "unbounded", "loopA", "rowEigen", "loopS1", "rowGeneric", "plusOne", "GE", "solveS", "throwIfNone", "assembleQ", "argmaxRows"] ∧
+    AITB.Gen.C01.qPolicyHoldsReference = true ∧
+    AITB.Gen.C01.rewardTableSites = ["viIrSelect", "lpIrSelect", "peCtorCachesIr", "pePolicyOnce", "peEigenR", "peGenericIr", "peDotAllStates"] ∧
     AITB.Gen.C01.bellmanInplaceIsMaxCoeffOverActions = true ∧
     AITB.Gen.C01.computeQSites = ["irGeneric", "qEigen", "qGeneric"] ∧
-    AITB.Gen.C01.greedySites = ["init", "scanFrom1", "tieGeneral", "greater", "setMax", "reset", "fillFrom0", "tieGeneral2", "recip", "zero"] ∧
+    AITB.Gen.C01.greedySites = (if AITB.Gen.C01.greedyTrueMaxFirst then ["init", "trueMax", "count0", "countTies", "fillFrom0", "tieGeneral2", "recip", "zero"]
+      else ["init", "scanFrom1", "tieGeneral", "greater", "setMax", "reset", "fillFrom0", "tieGeneral2", "recip", "zero"]) ∧
+    AITB.Gen.C01.greedyTableSites = ["retvalSA", "rowLoop", "wrapRow", "fillRow", "ret", "bufferIsA"] ∧
+    AITB.Gen.C01.toleranceSites = ["smallAbsLe", "differentIsNotEqual", "generalSmallOrRelMin"] ∧
+    AITB.Gen.C01.makeSites = ["makeQZero", "makeVFZeroActionsS", "bellmanOperatorWrapsInplace"] ∧
+    AITB.Gen.C01.viStartSites = ["sizeOfParam", "neS", "defaultZero", "else", "copyParam", "v1NotReadBefore"] ∧
+    AITB.Gen.C01.setterSites = ["viTolThrowsNeg", "viTolAssign", "viHorizon", "viParam", "peTolThrowsNeg", "peTolAssign"] ∧
     AITB.Gen.C01.piSites = ["eval", "greedyOfQfun", "matrix0", "label", "evalP", "warm", "qfunGetsQ", "newMatrix", "diffSmall", "moveMatrix", "goto", "ret"] := by decide
+
+/-! ## why PolicyIteration diverges on the tie chain (finding C01-3) -/
+
+theorem sumTo_mul_right (n : Nat) (c : Rat) (f : Nat → Rat) : sumTo n (fun i => f i * c) = sumTo n f * c := by
+  induction n with
+  | zero => simp [sumTo]
+  | succ n ih => simp only [sumTo, ih]; ring
+
+/-- one sweep of the policy operator on a one-state MDP whose policy row has total weight c: V ↦ ρ + c·γ·V, ρ the weighted reward -/
+theorem bellmanPi_one_state (m : MDP) (hS : m.S = 1) (hT : ∀ a, a < m.A → m.T 0 a 0 = 1) (p : Nat → Nat → Rat) (v : Nat → Rat) :
+    bellmanPi m p v 0 = sumTo m.A (fun a => m.R 0 a * p 0 a) + sumTo m.A (p 0) * (m.γ * v 0) := by
+  unfold bellmanPi qBackup
+  rw [hS]
+  have : ∀ a, a < m.A → (m.R 0 a + sumTo 1 (fun s1 => m.T 0 a s1 * (v s1 * m.γ))) * p 0 a = m.R 0 a * p 0 a + p 0 a * (m.γ * v 0) := by
+    intro a ha
+    simp only [sumTo, hT a ha]
+    ring
+  rw [sumTo_congr this, sumTo_add, sumTo_mul_right]
+
+/-- **weight2_sweeps_never_settle.**  Why PolicyIteration diverges on C01-3: on a one-state MDP, a policy row of total weight c with c·γ ≥ 1
+    (the chain row has c = 2, so γ ≥ ½) and positive weighted reward ρ makes every sweep move the value up by at least ρ — consecutive
+    iterates never come closer than ρ, whatever the horizon; no tolerance below ρ is ever met and the values are unbounded. -/
+theorem weight2_sweeps_never_settle (m : MDP) (hS : m.S = 1) (hT : ∀ a, a < m.A → m.T 0 a 0 = 1) (p : Nat → Nat → Rat)
+    (hc : 1 ≤ sumTo m.A (p 0) * m.γ) (ρ : Rat) (hρ : ρ = sumTo m.A (fun a => m.R 0 a * p 0 a)) (hpos : 0 ≤ ρ) :
+    ∀ h, ρ ≤ evalPolicy m p (h+1) 0 - evalPolicy m p h 0 ∧ (h : Rat) * ρ ≤ evalPolicy m p h 0 := by
+  intro h
+  induction h with
+  | zero =>
+    simp only [evalPolicy, evalFrom]
+    rw [bellmanPi_one_state m hS hT p]
+    simp [← hρ]
+  | succ h ih =>
+    obtain ⟨i1, i2⟩ := ih
+    have e1 : evalPolicy m p (h+1+1) 0 = ρ + sumTo m.A (p 0) * (m.γ * evalPolicy m p (h+1) 0) := by
+      simp only [evalPolicy, evalFrom]; rw [bellmanPi_one_state m hS hT p, ← hρ]
+    have e2 : evalPolicy m p (h+1) 0 = ρ + sumTo m.A (p 0) * (m.γ * evalPolicy m p h 0) := by
+      simp only [evalPolicy, evalFrom]; rw [bellmanPi_one_state m hS hT p, ← hρ]
+    have hd : 0 ≤ evalPolicy m p (h+1) 0 - evalPolicy m p h 0 := le_trans hpos i1
+    constructor
+    · have : evalPolicy m p (h+1+1) 0 - evalPolicy m p (h+1) 0
+          = (sumTo m.A (p 0) * m.γ) * (evalPolicy m p (h+1) 0 - evalPolicy m p h 0) := by rw [e1, e2]; ring
+      rw [this]
+      nlinarith
+    · push_cast
+      linarith
+
+/-- harness case 3 as a model value: one state, three self-loop actions, rewards 1e7 + {0, 0.9e-3, 1.8e-3}, γ = 0.9 -/
+def chainMDP : MDP :=
+  { S := 1, A := 3, T := fun _ _ _ => 1, R3 := fun _ a _ => 10000000 + (a : Rat) * (9 / 10000),
+    R := fun _ a => 10000000 + (a : Rat) * (9 / 10000), γ := 9 / 10 }
+
+/-- the hypotheses of `weight2_sweeps_never_settle` hold for case 3 with the row `[0,1,1]` the as-found scan produces there
+    (weight 2, 2γ = 1.8, ρ = 2e7 + 2.7e-3): every sweep adds at least 2e7 (test on literals) -/
+example : ∀ h, (20000000 : Rat) ≤ evalPolicy chainMDP (fun _ a => if a = 0 then 0 else 1) (h+1) 0
+      - evalPolicy chainMDP (fun _ a => if a = 0 then 0 else 1) h 0 := by
+  intro h
+  have := (weight2_sweeps_never_settle chainMDP rfl (fun _ _ => rfl) (fun _ a => if a = 0 then 0 else 1)
+    (by norm_num [chainMDP, sumTo]) (20000000 + 27 / 10000) (by norm_num [chainMDP, sumTo]) (by norm_num) h).1
+  linarith
+
+/-! ## `bellmanOperator`; the shared LP row buffer -/
+
+theorem bellmanOp_spec (S A : Nat) (q : Mat) :
+    (bellmanOp S A q).values.size = S ∧ (bellmanOp S A q).actions.size = S ∧
+    ∀ s, s < S → (bellmanOp S A q).values.get s = maxTo (A - 1) (q.get s) ∧
+                 natAt (bellmanOp S A q).actions s = argmaxTo (A - 1) (q.get s) ∧
+                 (bellmanOp S A q).values.get s = q.get s (natAt (bellmanOp S A q).actions s) := by
+  unfold bellmanOp bellmanInplace
+  simp only [mkVec_size, mkNats_size]
+  refine ⟨trivial, trivial, ?_⟩
+  intro s hs
+  rw [mkVec_get _ hs, mkNats_get _ hs, if_pos hs]
+  exact ⟨rfl, rfl, maxTo_eq_argmax _ _⟩
+
+/-! ### the shared `lp.row` buffer -/
+
+theorem writeTo_size (f : Nat → Rat) : ∀ n (b : Vec), (writeTo n f b).size = b.size := by
+  intro n
+  induction n with
+  | zero => intro b; rfl
+  | succ n ih => intro b; simp [writeTo, ih]
+
+theorem writeTo_get (f : Nat → Rat) : ∀ n (b : Vec) i, i < b.size →
+    (writeTo n f b).get i = if i < n then f i else b.get i := by
+  intro n
+  induction n with
+  | zero => intro b i _; simp [writeTo]
+  | succ n ih =>
+    intro b i hi
+    simp only [writeTo, Vec.get]
+    by_cases h : i = n
+    · subst h
+      have : i < (writeTo i f b).size := by rw [writeTo_size]; exact hi
+      simp [Array.getD, Array.setIfInBounds, this]
+    · have h1 := ih b i hi
+      simp only [Vec.get] at h1
+      rw [Array.getD_eq_getD_getElem?, Array.getElem?_setIfInBounds_ne (Ne.symm h), ← Array.getD_eq_getD_getElem?, h1]
+      by_cases h2 : i < n
+      · simp [h2, Nat.lt_succ_of_lt h2]
+      · have : ¬ i < n + 1 := by omega
+        simp [h2, this]
+
+theorem get_setIfInBounds (b : Vec) (i j : Nat) (x : Rat) (hi : i < b.size) :
+    Vec.get (b.setIfInBounds i x) j = if j = i then x else b.get j := by
+  unfold Vec.get
+  rw [Array.getD_eq_getD_getElem?, Array.getD_eq_getD_getElem?]
+  by_cases h : j = i
+  · subst h
+    rw [Array.getElem?_setIfInBounds_self_of_lt hi]
+    simp
+  · rw [Array.getElem?_setIfInBounds_ne (Ne.symm h)]
+    simp [h]
+
+/-- **lpRowPass_spec.**  Whatever the buffer held before (the objective's 1/S entries, or the previous row with its `+1`), after the pass
+    it holds exactly the constraint row of (s,a): nothing leaks from one `pushRow` to the next. -/
+theorem lpRowPass_spec (m : MDP) (s a : Nat) (hs : s < m.S) (buf : Vec) (hb : buf.size = m.S) :
+    (lpRowPass m s a buf).size = m.S ∧ ∀ s1, s1 < m.S → Vec.get (lpRowPass m s a buf) s1 = lpCoeff m s a s1 := by
+  have hsz : (writeTo m.S (fun s1 => -m.γ * m.T s a s1) buf).size = m.S := by rw [writeTo_size, hb]
+  refine ⟨?_, ?_⟩
+  · unfold lpRowPass
+    rw [Array.size_setIfInBounds, hsz]
+  · intro s1 h1
+    unfold lpRowPass lpCoeff
+    rw [get_setIfInBounds _ s s1 _ (by rw [hsz]; exact hs)]
+    by_cases h : s1 = s
+    · subst h
+      rw [if_pos rfl, if_pos rfl, writeTo_get _ _ _ _ (by rw [hb]; exact h1), if_pos h1]
+    · rw [if_neg h, if_neg h, writeTo_get _ _ _ _ (by rw [hb]; exact h1), if_pos h1]
+      ring
+
+/-- **lpPushAll_rows.**  Starting from ANY buffer of S entries (the code starts from the objective row 1/S), the k-th pushed row
+    (k = s·A + a, all S·A of them) is the constraint row of (s,a). -/
+theorem lpPushAll_rows (m : MDP) (hA : 0 < m.A) (buf : Vec) (hb : buf.size = m.S) :
+    ∀ n, n ≤ m.S * m.A → ((lpPushAll m n buf).1.size = m.S ∧ (lpPushAll m n buf).2.length = n ∧
+      ∀ k, k < n → ∀ s1, s1 < m.S → Vec.get ((lpPushAll m n buf).2.getD k #[]) s1 = lpCoeff m (k / m.A) (k % m.A) s1) := by
+  intro n
+  induction n with
+  | zero => intro _; exact ⟨hb, rfl, fun k hk => absurd hk (Nat.not_lt_zero k)⟩
+  | succ n ih =>
+    intro hn
+    obtain ⟨h1, h2, h3⟩ := ih (by omega)
+    have hs : n / m.A < m.S := by
+      apply Nat.div_lt_of_lt_mul
+      rw [Nat.mul_comm]; omega
+    obtain ⟨p1, p2⟩ := lpRowPass_spec m (n / m.A) (n % m.A) hs (lpPushAll m n buf).1 h1
+    simp only [lpPushAll]
+    refine ⟨p1, by simp [h2], ?_⟩
+    intro k hk s1 hs1
+    by_cases hkn : k < n
+    · have e : (((lpPushAll m n buf).2 ++ [lpRowPass m (n / m.A) (n % m.A) (lpPushAll m n buf).1]).getD k #[]) = (lpPushAll m n buf).2.getD k #[] := by
+        rw [List.getD_eq_getElem?_getD, List.getD_eq_getElem?_getD, List.getElem?_append_left (by rw [h2]; exact hkn)]
+      rw [e]
+      exact h3 k hkn s1 hs1
+    · have : k = n := by omega
+      subst this
+      have e : (((lpPushAll m k buf).2 ++ [lpRowPass m (k / m.A) (k % m.A) (lpPushAll m k buf).1]).getD k #[]) = lpRowPass m (k / m.A) (k % m.A) (lpPushAll m k buf).1 := by
+        rw [List.getD_eq_getElem?_getD, List.getElem?_append_right (by rw [h2]), h2, Nat.sub_self]
+        simp
+      rw [e]
+      exact p2 s1 hs1
+
+
+/-! ## the solver object across calls: no answer depends on earlier calls or on the moved-from internal vector -/
+
+def VIObj.SameParams (o o' : VIObj) : Prop := o.tol = o'.tol ∧ o.horizon = o'.horizon ∧ o.vParam = o'.vParam
+
+theorem VIObj.run_sameParams : ∀ (es : List VIEvent) (o o' : VIObj), VIObj.SameParams o o' →
+    VIObj.SameParams (o.run es) (o'.run (es.filter VIEvent.isSetter)) := by
+  intro es
+  induction es with
+  | nil => intro o o' h; exact h
+  | cons e es ih =>
+    intro o o' h
+    obtain ⟨h1, h2, h3⟩ := h
+    cases e with
+    | setTolerance x =>
+      simp only [List.filter, VIEvent.isSetter, VIObj.run]
+      apply ih
+      simp only [VIObj.step]
+      by_cases hx : x < 0
+      · simp only [hx, if_true]; exact ⟨h1, h2, h3⟩
+      · simp only [hx, if_false]; exact ⟨rfl, h2, h3⟩
+    | setHorizon x =>
+      simp only [List.filter, VIEvent.isSetter, VIObj.run]
+      apply ih
+      exact ⟨h1, rfl, h3⟩
+    | setValueFunction x =>
+      simp only [List.filter, VIEvent.isSetter, VIObj.run]
+      apply ih
+      exact ⟨h1, h2, rfl⟩
+    | call m rep j =>
+      simp only [List.filter, VIEvent.isSetter, VIObj.run]
+      apply ih
+      exact ⟨h1, h2, h3⟩
+
+/-- **viObj_history.**  For every history of setter calls and solver calls (on any models, of any sizes, leaving anything behind in the
+    moved-from `v1_`), the next `operator()(m)` returns what a fresh object with the same setter history returns: `valueIteration` of the
+    current parameters.  (This is what the harness's object-reuse lines test against the real class.) -/
+theorem viObj_history (o o' : VIObj) (hp : VIObj.SameParams o o') (es : List VIEvent) (m : MDP) (rep : Rep) (j j' : VF) :
+    ((o.run es).step (.call m rep j)).2 = ((o'.run (es.filter VIEvent.isSetter)).step (.call m rep j')).2 := by
+  obtain ⟨h1, h2, h3⟩ := VIObj.run_sameParams es o o' hp
+  simp only [VIObj.step, h1, h2, h3]
+
+/-- a rejected `setTolerance` leaves the tolerance nonnegative: the invariant `0 ≤ tolerance_` holds along every history -/
+theorem viObj_tol_nonneg : ∀ (es : List VIEvent) (o : VIObj), 0 ≤ o.tol → 0 ≤ (o.run es).tol := by
+  intro es
+  induction es with
+  | nil => intro o h; exact h
+  | cons e es ih =>
+    intro o h
+    simp only [VIObj.run]
+    apply ih
+    cases e with
+    | setTolerance x =>
+      simp only [VIObj.step]
+      by_cases hx : x < 0
+      · simp only [hx, if_true]; exact h
+      · simp only [hx, if_false]; exact not_lt.mp hx
+    | setHorizon x => exact h
+    | setValueFunction x => exact h
+    | call m rep j => exact h
+
+/-- the default-constructed start (`ValueFunction{}`: no values) is the all-zero start, for every model with at least one state -/
+theorem vi_empty_start_is_default (m : MDP) (rep : Rep) (hS : 0 < m.S) (h : Nat) (tol : Rat) (acts : Array Nat) :
+    valueIteration m rep h tol (some ⟨#[], acts⟩) = valueIteration m rep h tol none := by
+  have e : acceptWarm m.S ⟨#[], acts⟩ = makeVF m.S := by
+    unfold acceptWarm
+    have : ((#[] : Vec).size != m.S) = true := by
+      simp only [Array.size_empty, bne_iff_ne, ne_eq]; omega
+    simp only [this, if_true]
+  simp only [valueIteration, e]
+
+def PEObj.SameParams (o o' : PEObj) : Prop := o.tol = o'.tol ∧ o.horizon = o'.horizon ∧ o.vParam = o'.vParam
+
+theorem PEObj.run_sameParams (m : MDP) (rep : Rep) : ∀ (es : List PEEvent) (o o' : PEObj), PEObj.SameParams o o' →
+    PEObj.SameParams (PEObj.run m rep o es) (PEObj.run m rep o' (es.filter PEEvent.isSetter)) := by
+  intro es
+  induction es with
+  | nil => intro o o' h; exact h
+  | cons e es ih =>
+    intro o o' h
+    obtain ⟨h1, h2, h3⟩ := h
+    cases e with
+    | setTolerance x =>
+      simp only [List.filter, PEEvent.isSetter, PEObj.run]
+      apply ih
+      simp only [PEObj.step]
+      by_cases hx : x < 0
+      · simp only [hx, if_true]; exact ⟨h1, h2, h3⟩
+      · simp only [hx, if_false]; exact ⟨rfl, h2, h3⟩
+    | setHorizon x =>
+      simp only [List.filter, PEEvent.isSetter, PEObj.run]
+      apply ih
+      exact ⟨h1, rfl, h3⟩
+    | setValues x =>
+      simp only [List.filter, PEEvent.isSetter, PEObj.run]
+      apply ih
+      exact ⟨h1, h2, rfl⟩
+    | call p j =>
+      simp only [List.filter, PEEvent.isSetter, PEObj.run]
+      apply ih
+      exact ⟨h1, h2, h3⟩
+
+/-- **peObj_history.**  Any history of setters and evaluations (of any policies) on one PolicyEvaluation object: the next evaluation returns
+    what a fresh object with the same setter history returns.  In particular PolicyIteration's `eval.setValues(v); eval(p)` is
+    `policyEvaluation … (some v) p`, which is how `piRound` threads `vParam`. -/
+theorem peObj_history (m : MDP) (rep : Rep) (o o' : PEObj) (hp : PEObj.SameParams o o') (es : List PEEvent) (p : Mat) (j j' : Vec) :
+    ((PEObj.run m rep o es).step m rep (.call p j)).2 = ((PEObj.run m rep o' (es.filter PEEvent.isSetter)).step m rep (.call p j')).2 := by
+  obtain ⟨h1, h2, h3⟩ := PEObj.run_sameParams m rep es o o' hp
+  simp only [PEObj.step, h1, h2, h3]
+
+/-- an empty start vector is the all-zero start for every model with at least one state -/
+theorem pe_empty_start_is_default (m : MDP) (rep : Rep) (hS : 0 < m.S) (h : Nat) (tol : Rat) (p : Mat) :
+    policyEvaluation m rep h tol (some #[]) p = policyEvaluation m rep h tol none p := by
+  have : ((#[] : Vec).size != m.S) = true := by
+    simp only [Array.size_empty, bne_iff_ne, ne_eq]; omega
+  simp only [policyEvaluation, this, if_true]
 
 /-! ## the hypotheses are satisfiable: a concrete non-trivial MDP (2 states, 2 actions, negative reward, self-loop) -/
 
@@ -2090,5 +2900,9 @@ example : useTolerance 0 = false := by
   norm_num [useTolerance, checkDifferentSmall, checkEqualSmall, absR, AITB.Gen.equalToleranceSmall]
 example : useTolerance (1/1000) = true := by
   norm_num [useTolerance, checkDifferentSmall, checkEqualSmall, absR, AITB.Gen.equalToleranceSmall]
+
+/-- a history with a rejected setter, a call that leaves junk behind, and an accepted setter (test on literals) -/
+example : ((⟨0, 3, ⟨#[], #[]⟩, ⟨#[], #[]⟩⟩ : VIObj).run [.setTolerance (-1), .setHorizon 5, .call exMDP .eigen ⟨#[7], #[]⟩, .setTolerance (1/4)]).tol = 1/4 := by
+  norm_num [VIObj.run, VIObj.step]
 
 end AITB.MDP
